@@ -764,6 +764,11 @@ func tJudgeDec(c *tCase) []Failure {
 	if c.St == 2 {
 		fs = append(fs, Failure{Sig: "tup/decode/panic/" + classifyPanic(c.Err), Desc: fmt.Sprintf("%s %s: Decode panics: %s (input % x)", c.Class, c.Note, c.Err, trunc(c.Bytes))})
 	}
+	if c.St == 0 { // success only on an input whose first field is a MAP at tag 0 (the attribute map is mandatory)
+		if ty, tag, _, ok := readHeadAt(c.Bytes, 0); !ok || ty != codec.MAP || tag != 0 {
+			fs = append(fs, Failure{Sig: "tup/malformed-accepted/no-map-at-tag-0", Desc: fmt.Sprintf("%s: Decode reports success (%d entries) on an input that does not start with a MAP at tag 0: % x", c.Note, len(c.Final), trunc(c.Bytes))})
+		}
+	}
 	switch c.Expect {
 	case "roundtrip":
 		if c.St != 0 {
